@@ -277,6 +277,17 @@ def call_sc_apply(Fn, Xi, Phi, ordmin, ordmax, tol):
     return gen.SC_apply(Fn, Xi, Phi, ordmin, ordmax, 1, tol[0], tol[1], tol[2])
 
 
+_SC_ORDERS = [("err_fn", "err_xi", "err_phi"), ("err_xi", "err_phi", "err_fn"), ("err_phi", "err_fn", "err_xi"),
+              ("err_fn", "err_phi", "err_xi"), ("err_phi", "err_xi", "err_fn"), ("err_xi", "err_fn", "err_phi")]
+
+
+def sc_dict(tol, k):
+    """The soft-criteria dictionary with its keys inserted in the k-th of the six possible orders (a dict is a mapping:
+    the order in which the user writes the keys must not matter)."""
+    val = {"err_fn": tol[0], "err_xi": tol[1], "err_phi": tol[2]}
+    return {key: val[key] for key in _SC_ORDERS[k % 6]}
+
+
 def ssi_setup(C):
     """(record length, block rows) allowing ordmax = C-1 with two channels."""
     br = max(2, (C - 1 + 1) // 2 + 1)
@@ -289,7 +300,7 @@ def run_ssicov(seed, raw, ordmin, tol, alg=None):
     C = raw[0].shape[1]
     n, br = ssi_setup(C)
     H.set_raw("ssi", *raw)
-    sc = dict(err_fn=tol[0], err_xi=tol[1], err_phi=tol[2])
+    sc = sc_dict(tol, ordmin + C + int(round(1e3 * tol[0])))
     if alg is None:
         alg = SSIcov(name="c10", br=br, ordmax=C - 1, ordmin=ordmin, step=1, sc=sc, hc=dict(H.HC_OFF_SSI))
         alg._set_data(H.tiny_data(seed, n), 100.0)
@@ -310,7 +321,7 @@ def run_plscf(seed, raw, ordmin, tol, alg=None):
     C = raw[0].shape[1]
     n, nx = plscf_setup(C)
     H.set_raw("plscf", *raw)
-    sc = dict(err_fn=tol[0], err_xi=tol[1], err_phi=tol[2])
+    sc = sc_dict(tol, ordmin + C + 1 + int(round(1e3 * tol[0])))
     if alg is None:
         alg = pLSCF(name="c10", ordmax=C, ordmin=ordmin, nxseg=nx, sc=sc, hc=dict(H.HC_OFF_PLSCF))
         alg._set_data(H.tiny_data(seed, n), 100.0)
